@@ -643,6 +643,7 @@ def render_ising(depth=3, dmm_first=False):
     calls.append({"op": "target", "nm": 2, "tg": 5})
     calls.append({"op": "target", "nm": 3, "tg": 4})
     calls.append({"op": "delay", "nm": 1, "d": 3, "rest": False})
+    calls.append({"op": "delay", "nm": 1, "d": 7, "rest": False})      # longer than the rise time, inside a fall time
     calls.append({"op": "delay", "nm": 2, "d": 2, "rest": True})
     calls.append({"op": "detmap", "mp": [2, 3], "w2": [2, 1, 0], "cid": 4})
     calls.append({"op": "slm", "tg": 5, "cid": 4})
